@@ -1,7 +1,8 @@
 /-
 Value hashing — model of `TypeRegistry.get_hash` for plain Python values (redun/value.py:
 `ProxyValue.get_hash` = hash of the pickle of the value, `Set.get_hash` = hash of the pickle of
-`sorted(value)` under the tag "Value.set", used only when the value itself is an exact `set`).
+`sorted(value)` — or, when that raises TypeError, of the elements sorted by their own value hash — under
+the tag "Value.set", used only when the value itself is an exact `set`).
 
 What pickle does is modelled structurally: the pickle of a value is determined by, and determines, the
 value *as laid out in memory order* — every `set`/`frozenset` node contributes its elements in the
@@ -122,7 +123,12 @@ def allPairsOrdered : List V → Bool
   | [] => true
   | x :: xs => xs.all (fun y => pyCmp x y == .lt || pyCmp x y == .gt) && allPairsOrdered xs
 
-/-- `sorted(s)` for the elements `xs` of a set (pairwise distinct under `==`).
+/-- two elements of different kinds -/
+def mixedKinds (xs : List V) : Bool := xs.any fun a => xs.any fun b => kind a != kind b
+def allKind (k : Kind) (xs : List V) : Bool := xs.all fun a => kind a == k
+
+/-- `sorted(s)` for the elements `xs` of a set (pairwise distinct under `==`).  Every test below looks at
+the elements as a collection, never at their order.
 * 0 or 1 element: no comparison is made.
 * elements of two different kinds (number / str / bytes / None / tuple / frozenset / object): some comparison
   across kinds is unavoidable and raises `TypeError`.
@@ -130,24 +136,19 @@ def allPairsOrdered : List V → Bool
 * dataclass instances (no `order=True`): every comparison raises.
 * frozensets (subset order is partial), tuples with incomparable components: not modelled. -/
 def pySorted (xs : List V) : SortRes :=
-  match xs with
-  | [] => .ok []
-  | [x] => .ok [x]
-  | x :: _ =>
-    if xs.any (fun y => kind y != kind x) then
-      if xs.any (fun y => kind y == .unhashable) then .unspecified else .typeError
-    else match kind x with
-      | .num | .str | .bytes => .ok (isort ltV xs)
-      | .tuple => if allPairsOrdered xs then .ok (isort ltV xs) else .unspecified
-      | .obj | .none => .typeError
-      | .fset | .unhashable => .unspecified
+  if xs.length ≤ 1 then .ok xs
+  else if xs.any (fun y => kind y == .unhashable) then .unspecified
+  else if mixedKinds xs || allKind .obj xs || allKind .none xs then .typeError
+  else if allKind .num xs || allKind .str xs || allKind .bytes xs then .ok (isort ltV xs)
+  else if allKind .tuple xs && allPairsOrdered xs then .ok (isort ltV xs)
+  else .unspecified
 
 /-! ### `get_hash` -/
 
 /-- What is fed to SHA-512: the tag and the laid-out structure that is pickled. -/
 inductive Pre where
   | value (v : V)               -- hash_tag_bytes("Value", pickle_dumps(v))
-  | valueSet (sorted : List V)  -- hash_tag_bytes("Value.set", pickle_dumps(sorted(v)))
+  | valueSet (sorted : List V)  -- hash_tag_bytes("Value.set", pickle_dumps(items))
   deriving Repr
 
 inductive HashRes where
@@ -156,13 +157,20 @@ inductive HashRes where
   | unspecified
   deriving Repr
 
-/-- `TypeRegistry.get_hash(value)`: the `Set` proxy is selected only for an exact top-level `set`;
-everything else (frozenset included) is pickled as it is laid out. -/
-def getHash : V → HashRes
+/-- order of two elements by their own value hashes (`sorted(..., key=get_hash)`: hex digests compared as
+strings; a digest is modelled as the number `H pre-image`).  An element of a set is hashable, hence never an
+exact `set`: its hash is the hash of its pickle. -/
+def ltByHash (H : Pre → Nat) (a b : V) : Bool := decide (H (.value a) < H (.value b))
+
+/-- `TypeRegistry.get_hash(value)`.  `H` is the digest function (SHA-512/160 of tag + pickle), a parameter.
+The `Set` proxy is selected only for an exact top-level `set`: it pickles `sorted(value)`, and when that raises
+`TypeError`, the elements sorted by their own value hash.  Everything else (frozenset included) is pickled as
+it is laid out. -/
+def getHash (H : Pre → Nat) : V → HashRes
   | .set xs =>
     match pySorted xs with
     | .ok l => .ok (.valueSet l)
-    | .typeError => .typeError
+    | .typeError => .ok (.valueSet (isort (ltByHash H) xs))
     | .unspecified => .unspecified
   | v => .ok (.value v)
 
